@@ -8,8 +8,10 @@ Local Open Scope nat_scope.
    equal to, not dividing, larger than n_shuffles or n * n_shuffles):
    the loop returns, for each example in input order, the aggregation of the values of its
    pairs (example, reference j) for j = 0 .. n_shuffles-1 in shuffle order, and the references
-   [[ref e j]]; the batches handed to the model, concatenated, are the pairs in order.
-   The right-hand side does not mention b.                                                 *)
+   [[ref e j]]; the batches handed to the model, concatenated, are the pairs in order, and the
+   reference look-ups / reference-function calls made (one per entry of Xi, rj of each flush)
+   are exactly one per pair: shuffle j of example e for e = 0..n-1, j = 0..n_shuffles-1, in order.
+   The right-hand sides do not mention b.                                                  *)
 Theorem c06_closed_form :
   forall (EX R V W : Type) (dex : EX) (refsrc : EX -> nat -> R)
          (attr : list (EX * R) -> list V) (agg : EX -> list V -> W) (pairv : EX -> R -> V),
@@ -20,7 +22,9 @@ Theorem c06_closed_form :
         dls_model dex refsrc attr agg ret ns b X
         = (Ok (map (ex_attr refsrc agg pairv ns) X,
                if ret then Some (map (ex_refs refsrc ns) X) else None), t)
-        /\ concat t = flat_map (ex_pairs refsrc ns) X.
+        /\ concat (map snd t) = flat_map (ex_pairs refsrc ns) X
+        /\ concat (map (fun fl => combine (fst (fst fl)) (snd (fst fl))) t)
+           = flat_map (fun e => map (fun j => (e, j)) (seq 0 ns)) (seq 0 (length X)).
 Proof. exact @dls_closed_form. Qed.
 Print Assumptions c06_closed_form.
 
@@ -75,11 +79,11 @@ Theorem c06_attributions_independent : forall c, spec_ok c (model c) = true.
 Proof. exact dls_spec. Qed.
 Print Assumptions c06_attributions_independent.
 
-(* ... and not only against the first call of a family: any two in-scope calls agree on
-   every example they share *)
+(* ... and not only against the first call of its class: any two in-scope calls of the same
+   configuration class agree on every example they share, wherever they stand in the sequence *)
 Theorem c06_pairwise_enc :
   forall (c : cfgE) (v1 v2 : variation),
-    uniform_refs c = true ->
+    uniform_refs c = true -> v_cls v1 = v_cls v2 ->
     scope (length (ce_base c)) (ns_of c) v1 = true -> scope (length (ce_base c)) (ns_of c) v2 = true ->
     consistent tensors_eqb tensor_eqb v1 v2 (fst (run_enc c v1)) (fst (run_enc c v2)) = true.
 Proof. exact dls_pairwise_enc. Qed.
@@ -87,23 +91,39 @@ Print Assumptions c06_pairwise_enc.
 
 Theorem c06_pairwise_real :
   forall (c : cfgR) (v1 v2 : variation),
+    v_cls v1 = v_cls v2 ->
     scope (length (cr_base c)) (cr_ns c) v1 = true -> scope (length (cr_base c)) (cr_ns c) v2 = true ->
     consistent qlist_close zrow_eqb v1 v2 (fst (run_real c v1)) (fst (run_real c v2)) = true.
 Proof. exact dls_pairwise_real. Qed.
 Print Assumptions c06_pairwise_real.
 
+(* with a reference function and an integer seed s, the function is called exactly once per
+   pair, on the single row of the pair's example, with n = 1 and random_state = s + j *)
+Theorem c06_reference_calls :
+  forall (c : cfgE) (v : variation) (s : Z),
+    uniform_refs c = true -> scope (length (ce_base c)) (ns_of c) v = true -> ce_seed c = Some s ->
+    concat (map (fun fl : flushE => snd fl) (snd (run_enc c v)))
+    = flat_map (fun ex => map (fun j => ([e_x ex], 1%Z, (s + Z.of_nat j)%Z)) (seq 0 (ns_of c)))
+               (select dexE (ce_base c) (v_sel v)).
+Proof. exact enc_refcalls. Qed.
+Print Assumptions c06_reference_calls.
+
 (* the hypotheses are satisfiable: 2 examples, 3 shuffles from the tagged reference function
    with seed 5, batch size 2 (every batch straddles, the second one two examples), raw
-   outputs; three flushes of 2 pairs; shuffle j of an example uses seed 5 + j *)
+   outputs; three flushes of 2 pairs; shuffle j of an example uses seed 5 + j: the reference
+   function is called once per pair on one row (third component of each flush) *)
 Example c06_example :
   let c := CfgE Raw (Some 5%Z) 3 true 0
                 [ExE [[1;0];[0;2]]%Z [] []; ExE [[0;3];[1;1]]%Z [] []] in
-  run_enc c (Var [0;1] 2)
-  = (Ok ([[ [[60;1440];[1680;1560]]; [[300;1680];[0;1800]]; [[540;0];[240;120]] ]%Z;
-          [ [[1200;1860];[540;780]]; [[1440;180];[780;1020]]; [[1680;420];[1020;1260]] ]%Z],
-         Some [[ [[0;6];[7;6]]; [[1;7];[0;7]]; [[2;0];[1;0]] ]%Z;
-               [ [[5;7];[2;3]]; [[6;0];[3;4]]; [[7;1];[4;5]] ]%Z]),
-     [ ([ [[1;0];[0;2]]; [[1;0];[0;2]]; [[0;6];[7;6]]; [[1;7];[0;7]] ]%Z, []);
-       ([ [[1;0];[0;2]]; [[0;3];[1;1]]; [[2;0];[1;0]]; [[5;7];[2;3]] ]%Z, []);
-       ([ [[0;3];[1;1]]; [[0;3];[1;1]]; [[6;0];[3;4]]; [[7;1];[4;5]] ]%Z, []) ]).
+  run_enc c (Var [0;1] 2 0)
+  = (Ok ([[ [[1020;1440];[1680;1560]]; [[1260;1680];[960;1800]]; [[1500;960];[1200;1080]] ]%Z;
+          [ [[1200;1860];[1500;1740]]; [[1440;1140];[1740;1020]]; [[1680;1380];[1020;1260]] ]%Z],
+         Some [[ [[4;6];[7;6]]; [[5;7];[4;7]]; [[6;4];[5;4]] ]%Z;
+               [ [[5;7];[6;7]]; [[6;4];[7;4]]; [[7;5];[4;5]] ]%Z]),
+     [ ([ [[1;0];[0;2]]; [[1;0];[0;2]]; [[4;6];[7;6]]; [[5;7];[4;7]] ]%Z, [],
+        [ ([ [[1;0];[0;2]] ], 1, 5); ([ [[1;0];[0;2]] ], 1, 6) ]%Z);
+       ([ [[1;0];[0;2]]; [[0;3];[1;1]]; [[6;4];[5;4]]; [[5;7];[6;7]] ]%Z, [],
+        [ ([ [[1;0];[0;2]] ], 1, 7); ([ [[0;3];[1;1]] ], 1, 5) ]%Z);
+       ([ [[0;3];[1;1]]; [[0;3];[1;1]]; [[6;4];[7;4]]; [[7;5];[4;5]] ]%Z, [],
+        [ ([ [[0;3];[1;1]] ], 1, 6); ([ [[0;3];[1;1]] ], 1, 7) ]%Z) ]).
 Proof. vm_compute. reflexivity. Qed.
